@@ -457,7 +457,8 @@ builtin_dirscan(spif_charptr_t param)
                 unsigned long len;
 
                 len = strlen(dp->d_name);
-                if (len < n) {
+                if (len + 1 < n) {
+                    /* Room for the name, the blank and the terminator. */
                     strcat((char *) buff, dp->d_name);
                     strcat((char *) buff, " ");
                     n -= len + 1;
